@@ -532,6 +532,8 @@ void verif_node_tick(int threadNo, int site) {
     if (vsim::role(me) == vsim::R_ENGINE) {
         vsim::advance(g_nodeCostNs);
         g_allTicks++;
+        static const bool traceTicks = getenv("VERIF_TRACE_TICKS") != nullptr;
+        if (traceTicks && g_allTicks % 100 == 0) fprintf(stderr, "tick %ld site %d t %lld us\n", g_allTicks, site, vsim::now() / 1000);
         if (site != 2) {
             g_mainTicks++;
             H->mainTickTimes.push_back(vsim::now());
